@@ -146,11 +146,13 @@ func (s *Service) onFindNode(ctx context.Context, peer p2p.Peer, stream p2p.Stre
 	target := boson.NewAddress(req.Target)
 	skip := []boson.Address{peer.Address}
 
+	// split the requested limit between connected and known peers; never
+	// return more than requested (limits 0 and 1 included)
 	var (
-		limitConn  = 1
-		limitKnown = 1
+		limitConn  = 0
+		limitKnown = 0
 	)
-	if req.Limit > 2 {
+	if req.Limit > 0 {
 		limitKnown = int(req.Limit / 2)
 		limitConn = int(req.Limit) - limitKnown
 	}
